@@ -138,6 +138,16 @@ def check(ctx, report):
                     report.sample({'rule': 'C01.R1', 'class': c.name, 'verdict': 'reviewed equivalence',
                                    'reason': reviewed[c.name]['reason'], 'differences': keys}, 40)
                 continue
+            # items the composer adds to a list it writes: an object constructed inside compose() that is put into the sequence of an
+            # attribute (a padding extension appended "for interoperability") is on the wire but not in the object - parsing the
+            # bytes back gives another object.  Signalling *constants* appended under a flag are the business of R10
+            for e in cmpn.ccanon.flat:
+                if e.kind in ('repeat', 'array') and e.val is not None:
+                    extra = added_objects(e.val)
+                    if extra:
+                        report.add('C01.R2', '%s@added-item[%s]' % (cons, extra[0].cls.name),
+                                   'the composer writes the items of %s plus a %s it constructs itself: the composed message holds an item the object '
+                                   'does not have, parsing it back gives a different object' % (show(_first_splat(e.val))[:60], extra[0].cls.name))
             for d in cmpn.diffs:
                 rule = 'C01.R2' if d.kind == 'binding' else 'C01.R1'
                 report.add(rule, '%s@%s' % (cons, diff_key(d)), d.detail)
@@ -282,6 +292,58 @@ def exhaustiveness(ctx, report):
 
 
 # ---- R9: equality is defined over the state that reaches the wire ----------------------------------------------------
+
+def composer_added_items(ctx, report, RULE, classes):
+    """the same obligation under another property's rule id, for the named classes"""
+    from ..compare import compare_class
+    for c in classes:
+        cmpn = compare_class(c, ctx.canon)
+        report.count(RULE)
+        for e in cmpn.ccanon.flat:
+            if e.kind in ('repeat', 'array') and e.val is not None:
+                extra = added_objects(e.val)
+                if extra:
+                    report.add(RULE, '%s@added-item[%s]' % (c.construct, extra[0].cls.name),
+                               'the composer writes the items of %s plus a %s it constructs itself: the composed message holds an item the object '
+                               'does not have, parsing it back gives a different object' % (show(_first_splat(e.val))[:60], extra[0].cls.name))
+
+
+def added_objects(v, depth=0):
+    """objects constructed by the composer that sit, as explicit items, in a list value next to the spliced items of an attribute"""
+    from ..values import ListV, ObjV, Sym
+    out = []
+    if depth > 6:
+        return out
+    if isinstance(v, ListV):
+        has_splat = any(isinstance(x, Sym) and x.op == 'splat' for x in v.items)
+        for x in v.items:
+            if isinstance(x, ObjV) and has_splat:
+                out.append(x)
+            elif isinstance(x, Sym) and x.op == 'splat':
+                out.extend(added_objects(x.args[0], depth + 1))
+    elif isinstance(v, Sym) and v.op in ('phi', 'list', 'tuple', 'sorted'):
+        for a in v.args:
+            out.extend(added_objects(a, depth + 1))
+    return out
+
+
+def _first_splat(v, depth=0):
+    from ..values import ListV, Sym
+    if depth > 6:
+        return v
+    if isinstance(v, ListV):
+        for x in v.items:
+            if isinstance(x, Sym) and x.op == 'splat':
+                return _first_splat(x.args[0], depth + 1)
+    if isinstance(v, Sym) and v.op in ('phi',):
+        for a in v.args:
+            r = _first_splat(a, depth + 1)
+            if r is not a or not isinstance(a, (ListV,)):
+                return r
+    if isinstance(v, Sym) and v.op in ('list', 'tuple') and v.args:
+        return v.args[0]
+    return v
+
 
 def equality(ctx, report, RULE='C01.R9'):
     """parse(compose(x)) == x needs an __eq__ that looks at x's fields.  For every concrete parsable class: the class that
